@@ -48,7 +48,10 @@ TRUSTED = [
     "module-level / class-level state (of demeter: logging, decimal context, caches; of the strategy classes themselves) is outside the model and "
     "outside the generated behaviours: a strategy that keeps state in its class or module is not covered",
 ]
-ASSUMPTIONS = ["pandas copy-on-write is on (pandas >= 3); for pandas 2 the partial theorem needs strategies that do not overwrite frame values in place",
+ASSUMPTIONS = ["pandas copy-on-write isolates every in-place write into DataFrame.copy(deep=False) — measured on the installed pandas on every run (13 ways of "
+               "writing: iloc/loc/at/iat, column arithmetic, slices, masks, update, fillna(inplace), raw buffer writes), not read off its version; if a "
+               "write kind leaks the check reports it and asks the model with cow = false (the case of C19_manager_isolated_no_cow_partial, which needs "
+               "strategies that do not overwrite frame values in place)",
                "start method fork (Linux); the Windows branch is executed by patching the module's platform name inside the harness's worker process"]
 
 HERE = os.path.dirname(os.path.abspath(__file__))
@@ -65,6 +68,49 @@ GENERIC = ["idle", "watcher", "mut_prices", "mut_data", "mut_nested", "mut_statu
 UNI = ["add1", "add2", "addremove", "buy", "sell", "rebalance", "failing", "indicator", "follower", "vandal"]
 OPT = ["opt_buy", "opt_round", "opt_twice"]
 BEHAVIOURS = GENERIC + UNI + ["add_b", "aave_s", "aave_sb"] + OPT + ["sq_buy", "sq_short", "glp_buy", "glp_round"]
+
+
+def measure_cow():
+    """what the installed pandas does when a backtest writes into its `DataFrame.copy(deep=False)` of the shared frame (the frame
+    `_own_frame` hands out): for every way of writing a value in place, is the shared frame left alone?  {write kind: isolated}.
+    `C19_manager_isolated` assumes yes for all of them (copy-on-write); `C19_manager_isolated_no_cow_partial` is the statement for a pandas
+    that answers no."""
+    import warnings
+    import numpy as np
+    import pandas as pd
+    idx = pd.date_range(T0, periods=4, freq="min")
+
+    def shared():
+        return pd.DataFrame({"f": [1.0, 2.0, 3.0, 4.0], "i": np.array([1, 2, 3, 4], dtype="int64"),
+                             "o": pd.Series([Decimal(1), Decimal(2), Decimal(3), Decimal(4)], index=idx, dtype=object).values}, index=idx)
+    writes = {
+        "iloc[r,c]=": lambda d: d.iloc.__setitem__((1, 0), 99.0),
+        "loc[t,c]=": lambda d: d.loc.__setitem__((idx[1], "i"), 99),
+        "at[t,c]=": lambda d: d.at.__setitem__((idx[2], "o"), Decimal(99)),
+        "iat[r,c]=": lambda d: d.iat.__setitem__((2, 0), 99.0),
+        "col*=": lambda d: d.__setitem__("f", d["f"] * 2),
+        "col-slice=": lambda d: d["f"].iloc.__setitem__(slice(0, 2), 99.0),
+        "loc[:,c]=": lambda d: d.loc.__setitem__((slice(None), "i"), 7),
+        "values[...]=": lambda d: d["f"].values.__setitem__(0, 99.0),
+        "to_numpy()[...]=": lambda d: d["i"].to_numpy().__setitem__(0, 99),
+        "iloc[r]=": lambda d: d.iloc.__setitem__(0, [9.0, 9, Decimal(9)]),
+        "fillna(inplace)": lambda d: d.fillna(0, inplace=True),
+        "mask-assign": lambda d: d.__setitem__(d["f"] > 2, 0),
+        "update()": lambda d: d.update(pd.DataFrame({"f": [50.0]}, index=idx[:1])),
+    }
+    out = {}
+    for kind, w in writes.items():
+        base = shared()
+        ref = base.copy(deep=True)
+        view = base.copy(deep=False)
+        with warnings.catch_warnings():
+            warnings.simplefilter("ignore")
+            try:
+                w(view)
+            except Exception:  # noqa: BLE001   (a refused write — read-only buffer — cannot leak)
+                pass
+        out[kind] = bool(base.equals(ref) and list(base.dtypes) == list(ref.dtypes))
+    return out
 
 
 def applicable(markets):
@@ -905,7 +951,31 @@ def gen_cases(ctx):
     return cases
 
 
+def cow_probe(ctx):
+    """the copy-on-write assumption of the theorems, measured on the installed pandas instead of read off its version number"""
+    global COW
+    try:
+        res = measure_cow()
+    except Exception as e:  # noqa: BLE001
+        ctx.note("pandas_cow_probe", f"failed: {type(e).__name__}: {e}"[:200])
+        return
+    leaks = sorted(k for k, ok in res.items() if not ok)
+    ctx.note("pandas_cow_measured", {"version": _pd.__version__, "isolated_write_kinds": sorted(k for k, ok in res.items() if ok), "leaking": leaks})
+    for k in res:
+        ctx.case(f"cow-probe:{k}:{'isolated' if res[k] else 'leaks'}")
+    if COW and leaks:
+        # the unrestricted theorem's hypothesis (cow = true) does not describe this pandas: from here on the model is asked with cow = false
+        # (the partial theorem's case), and the leak itself is reported — _own_frame's shallow copy does not isolate these writes
+        ctx.violate("manager._own_frame:shallow-copy-leaks:" + "+".join(leaks)[:80],
+                    f"pandas {_pd.__version__}: writing into DataFrame.copy(deep=False) by {leaks} changes the shared frame, so a strategy "
+                    f"that overwrites values of self.data in place changes what later strategies of the same process see", {"cow_probe": leaks})
+        COW = False
+    elif not COW and not leaks:
+        COW = True
+
+
 def run(ctx):
+    cow_probe(ctx)
     from common import driver_json
     from concurrent.futures import ThreadPoolExecutor
     cases = gen_cases(ctx)
@@ -961,6 +1031,9 @@ def run(ctx):
 def replay(ctx, case) -> bool:
     from common import Ctx
     sub = Ctx(ctx.prop, ctx.tier, ctx.seed, False)
+    if "cow_probe" in case:
+        res = measure_cow()
+        return all(res.get(k, True) for k in case["cow_probe"])
     if "args" not in case:
         case = dict(case, args=[None] * len(case["behaviours"]))
     case.setdefault("price_kind", "float")
